@@ -158,7 +158,19 @@ fn observe_span(s: &str, a: usize, b: usize) -> Value {
         let sp = Span::new(s, a, b).unwrap();
         let ls: Vec<(usize, usize)> = sp.lines_span().map(|x| (x.start(), x.end())).collect();
         let lstr: Vec<String> = sp.lines().map(|x| x.to_string()).collect();
-        let strs_ok = lstr.len() == ls.len() && ls.iter().zip(&lstr).all(|((x, y), t)| &s[*x..*y] == t);
+        let mut strs_ok = lstr.len() == ls.len() && ls.iter().zip(&lstr).all(|((x, y), t)| &s[*x..*y] == t);
+        // the other ways of walking the same lines must agree with the collected ones
+        strs_ok &= sp.lines_span().last().map(|x| (x.start(), x.end())) == ls.last().copied();
+        strs_ok &= sp.lines().last().map(|x| x.to_string()) == lstr.last().cloned();
+        strs_ok &= sp.lines_span().count() == ls.len() && sp.lines().count() == ls.len();
+        for k in 0..=ls.len() {
+            strs_ok &= sp.lines_span().nth(k).map(|x| (x.start(), x.end())) == ls.get(k).copied();
+            let mut it = sp.lines_span();
+            for _ in 0..k {
+                it.next();
+            }
+            strs_ok &= it.last().map(|x| (x.start(), x.end())) == if k < ls.len() { ls.last().copied() } else { None };
+        }
         let e: Error<u8> = Error::new_from_span(ErrorVariant::CustomError { message: "m".into() }, sp);
         let (slc, elc) = match e.line_col { LineColLocation::Span(x, y) => (x, y), LineColLocation::Pos(x) => (x, x) };
         let disp = e.to_string();
